@@ -3,17 +3,32 @@
 import glob, re, sys
 pid = sys.argv[1]
 seen = []
+def enclosing(f, line):
+    """name of the function of /repo/<f> that contains the given line (searching upwards for a definition at column 0)"""
+    try:
+        src = open("/repo/" + f, errors="replace").read().splitlines()
+    except OSError:
+        return None
+    for i in range(min(line, len(src)) - 1, -1, -1):
+        m = re.match(r"^[A-Za-z_].*?\b(\w+)\s*\([^;]*$", src[i])
+        if m and not src[i].startswith(("if", "for", "while", "switch", "return", "else", "#")):
+            return m.group(1)
+    return None
 for d in sorted(glob.glob("/verif/seeded/%s-*/patch.diff" % pid)):
     f = None
-    for l in open(d, errors="replace"):
+    lines = open(d, errors="replace").read().splitlines()
+    for i, l in enumerate(lines):
         if l.startswith("+++ b/"): f = l[6:].strip()
-        m = re.match(r"@@ .* @@ .*?(\w+)\s*\(", l)
+        m = re.match(r"@@ -(\d+)(?:,(\d+))? ", l)
         if m and f:
-            e = "%s (%s)" % (m.group(1), f)
+            # first changed line of the hunk, in old-file numbering
+            off = 0
+            for k in lines[i + 1:]:
+                if k.startswith(("+", "-")): break
+                off += 1
+            fn = enclosing(f, int(m.group(1)) + off)
+            e = "%s (%s)" % (fn, f) if fn else "(%s)" % f
             if e not in seen: seen.append(e)
-        elif l.startswith("@@") and f:
-            e = "(%s)" % f
-            if e not in seen and not any(x.endswith(e) for x in seen): seen.append(e)
 print("Other engineers have already tried changes in or near: %s. Do something DIFFERENT from all of these - a different function AND a "
       "different kind of trigger. Before choosing, read include/Cello.h and list every function, macro and type that falls under the "
       "statement, then pick what a tester of this property is LEAST likely to have exercised: rarely used API variants and macros, optional "
